@@ -16,6 +16,19 @@ CLAIMED = {
         'Trusted: Coq kernel + vm_compute; hand-written model tied to the code only by the correspondence run; '
         'generators and text bridge; fake path elements carrying only oms_id (OMS-set of real paths tied by the oracle).',
         'DESIGN.md §7 C14'),
+    'C07': (
+        'Coq proof over a Q-model of SpectralInformation construction / demux / mux / find_common_range / filter_si / '
+        'amplifier dispatch (permutation invariance, exact rejection criterion, partition) + model/implementation '
+        'correspondence (vm_compute) + independent oracle at every element boundary of really designed paths',
+        '16 theorems closed under the global context: order irrelevance (mk_si_perm, launch_perm), exact rejection '
+        'criterion incl. adjacent<->pairwise and equal frequencies, sortedness/intactness, common-range specification and '
+        'disjointness, demux/mux partition, filter-then-path (every amplifier keeps every channel, one stage each). Tied to '
+        'gnpy by ~1000 (quick) / 13.5k (thorough) generated cases incl. single/multi/mixed-band designed paths with '
+        'band-edge +-1 Hz channels.',
+        'Hypotheses: slot widths > 0, well-formed amplifier band declarations. numpy.argsort modelled as a stable sort; '
+        'physical payload not modelled here (only which stage touched which channel). Trusted: Coq kernel + vm_compute, '
+        'generators, text bridge.',
+        'DESIGN.md §7 C07'),
 }
 
 NOT_YET = {}
